@@ -41,11 +41,13 @@ inductive MDecl where
       (bindless : Bool) (storage : Storage)
   deriving DecidableEq, Repr, Inhabited
 
-/-- what `assign_api_bindings` looks at (it does not peel unsized arrays: such a global is "not an object") -/
+/-- what `assign_api_bindings` looks at: it leaves every global alone whose storage class is not `Extern`
+    (`kind = none` in C06's model), and it does not peel unsized arrays: such a global is "not an object" -/
 def MDecl.toSlot : MDecl → Decl
   | .other => .other
   | .cbuffer _ s => .cbuffer s
-  | .global _ s ss k arr _ _ =>
+  | .global _ s ss k arr _ st =>
+    if st ≠ .extern then .global s ss none none else
     match arr with
     | .no => .global s ss k none
     | .sized n => .global s ss k (some n)
@@ -106,7 +108,8 @@ def hlslEvent : MDecl → Option Binding → Except String (Option (Nat × Entry
         .ok (some (b.set, { name := n, loc := b.loc, descType := dt, count := countOf arr,
                             bindless := bl, used := true, staticSampler := ss }))
 
-/-- One call of msl `analyse_bindings` (after simplify_cbuffers) + the later `is_used` marking. -/
+/-- One call of msl `analyse_bindings` (after simplify_cbuffers) + the later `is_used` marking.
+    A bind group without an argument buffer struct name is refused (`UnsupportedBindGroupIndex`). -/
 def mslEvent (used : Bool) : MDecl → Option Binding → Except String (Option (Nat × Entry))
   | .other, _ => .ok none
   | .cbuffer _ _, none => .ok none
@@ -114,6 +117,7 @@ def mslEvent (used : Bool) : MDecl → Option Binding → Except String (Option 
     match mslDescType .ConstantBuffer with
     | none => .error "UnsupportedObjectType"
     | some dt =>
+      if b.set ≥ argumentBufferNames.length then .error "UnsupportedBindGroupIndex" else
       .ok (some (b.set, { name := n, loc := b.loc, descType := dt, count := some 1,
                           bindless := false, used := used, staticSampler := false }))
   | .global n _ _ k arr bl _, ob =>
@@ -123,6 +127,7 @@ def mslEvent (used : Bool) : MDecl → Option Binding → Except String (Option 
       match ob with
       | none => .ok none
       | some b =>
+        if b.set ≥ argumentBufferNames.length then .error "UnsupportedBindGroupIndex" else
         .ok (some (b.set, { name := n, loc := b.loc, descType := dt, count := countOf arr,
                             bindless := bl, used := used, staticSampler := false }))
 
@@ -351,12 +356,14 @@ structure StageOut where
   threadGroupSize : Option (Nat × Nat × Nat)
   deriving DecidableEq, Repr, Inhabited
 
-/-- `typer/pipelines.rs add_stage` + `build_pipeline`: the reported stage -/
+/-- `typer/pipelines.rs add_stage` + `build_pipeline`: the reported stage.  HLSL reports the name the
+    exporter generated for the entry function (`ExportedSource::entry_point_names`), Metal the fixed name
+    of the generated entry function for that stage. -/
 def reportStage (msl : Bool) (funcs : List FuncDef) (s : StageDef) : Option StageOut :=
   match funcs[s.entry]? with
   | none => none
   | some f =>
-    some { stage := s.stage, entryPoint := if msl then mslEntryName s.stage else f.name,
+    some { stage := s.stage, entryPoint := if msl then mslEntryName s.stage else f.emitted,
            threadGroupSize := f.numthreads }
 
 /-- what the emitted source defines for the stage: (function name, numthreads / total threads attribute) -/
